@@ -1,5 +1,5 @@
 (* Correspondence entry point for C03.
-   input: (ops tail strings) - the history, then tail = 0 nothing | 1 strip_annotation_ids
+   input: (ops tail strings variant) - variant 1 = store configured with strip_temp_ids(false); the history, then tail = 0 nothing | 1 strip_annotation_ids
           | 2 strip_data_ids | 3 reindex, then every string is looked up as annotation,
           resource, dataset and, in every dataset, as key and as data.
    output: one sub-case per string: the handles found (model: temporary id / id map;
@@ -10,6 +10,19 @@ From Stam Require Import Base.Sx Model.Offset Model.Store Model.TempId Model.Rei
      Spec.StoreSpec Spec.IdSpec Run.StoreRun.
 
 Definition of_opt (o : option nat) : sx := match o with Some h => of_nats [h] | None => of_nats [] end.
+
+Definition lookups_plain (s : store) (model : bool) (str : list N) : sx :=
+  L [ (if model then of_opt (lookup_str_plain KAnn (anns s) (aidx s) str) else of_nats (spec_lookup_plain KAnn (anns s) a_id str));
+      (if model then of_opt (lookup_str_plain KRes (ress s) (ridx s) str) else of_nats (spec_lookup_plain KRes (ress s) (fun r => Some (r_id r)) str));
+      (if model then of_opt (lookup_str_plain KSet (sets s) (sidx s) str) else of_nats (spec_lookup_plain KSet (sets s) (fun d => Some (d_id d)) str));
+      L (map (fun d => match get_set s d with
+                       | None => dead
+                       | Some ds =>
+                           L [ (if model then of_opt (lookup_str_plain KKey (d_keys ds) (d_kidx ds) str)
+                                else of_nats (spec_lookup_plain KKey (d_keys ds) (fun t => Some t) str));
+                               (if model then of_opt (lookup_str_plain KData (d_data ds) (d_xidx ds) str)
+                                else of_nats (spec_lookup_plain KData (d_data ds) x_id str)) ]
+                       end) (seq 0 (length (sets s)))) ].
 
 Definition lookups (s : store) (model : bool) (str : list N) : sx :=
   L [ (if model then of_opt (lookup_str KAnn (anns s) (aidx s) str) else of_nats (spec_lookup_str KAnn (anns s) a_id str));
@@ -33,5 +46,7 @@ Definition run_C03 (x : sx) : sx :=
            | _ => reindex_ids s0
            end in
   L (map (fun str => let cs := map sx_N (sx_list str) in
-                     triple (lookups s true cs) (lookups s false cs) 0)
+                     if Nat.eqb (sx_nat (sx_nth 3 x)) 1
+                     then triple (lookups_plain s true cs) (lookups_plain s false cs) 0
+                     else triple (lookups s true cs) (lookups s false cs) 0)
          (sx_list (sx_nth 2 x))).
